@@ -279,6 +279,45 @@ func uCountsDP(n1, n2 int) []uint64 {
 	return out
 }
 
+// uTwoSidedFloat is the same p-value for samples whose arrangement counts do
+// not fit in 64 bits (n1+n2 > 64), with float64 counts (relative error ~1e-14).
+func uTwoSidedFloat(n1, n2, u int) float64 {
+	n := n1 + n2
+	maxSum := n * (n + 1) / 2
+	cnt := make([][]float64, n1+1)
+	for j := range cnt {
+		cnt[j] = make([]float64, maxSum+1)
+	}
+	cnt[0][0] = 1
+	for r := 1; r <= n; r++ {
+		for j := n1; j >= 1; j-- {
+			for s := maxSum; s >= r; s-- {
+				cnt[j][s] += cnt[j-1][s-r]
+			}
+		}
+	}
+	base := n1 * (n1 + 1) / 2
+	var le, ge, tot float64
+	for i := 0; i <= n1*n2; i++ {
+		c := cnt[n1][base+i]
+		tot += c
+		if i <= u {
+			le += c
+		}
+		if i >= u {
+			ge += c
+		}
+	}
+	p := 2 * le / tot
+	if ge < le {
+		p = 2 * ge / tot
+	}
+	if p > 1 {
+		p = 1
+	}
+	return p
+}
+
 // uTwoSided returns the exact two-sided p-value min(1, 2·min(P(U<=u),
 // P(U>=u))) as the fraction num/den (not reduced) for untied samples.
 func uTwoSided(counts []uint64, u int) (num, den uint64) {
